@@ -4,7 +4,7 @@ INVARIANT EmitCase
 CHECK_DEADLOCK FALSE
 CONSTANTS
   NoiseKinds = {"forged", "other"}
-  MaxSteps = 4
+  MaxSteps = 5
   MaxForged = 1
   DevLostForgets = FALSE
   Schedules = {"each", "glue"}
